@@ -1,10 +1,10 @@
 package main
 
 import (
-	"os"
 	"fmt"
 	"go/token"
 	"go/types"
+	"os"
 	"sort"
 	"strings"
 
@@ -922,7 +922,6 @@ func (p *provEngine) elemOfCallResult(x *ssa.Call, idx int, depth int) (srcs []s
 	}
 	return nil, false, "returned endpoint is not an element of a slice: " + strings.TrimSpace(v.String())
 }
-
 
 // perCallMap: the map value was created in this function (make / literal) or is one of its parameters.
 func perCallMap(v ssa.Value, d int) bool {
